@@ -1497,3 +1497,129 @@ Proof.
   - intros s Hs. apply NoDup_count_occ'; [|apply H2; auto].
     apply strongly_sorted_nodup. apply D.
 Qed.
+(* ---- send_progress (partial) ---- *)
+Definition rank (ph : phase) (k : nat) : nat :=
+  match ph with PMerge => 0 | PTry i => S (k - i) | PSelect => 1 | PDone => 0 end.
+
+Definition send_measure (st : state) (ss : sendst) : nat :=
+  (length (sendCases st) + s_k ss) * (length (sendCases st) + 2) + rank (s_phase ss) (s_k ss).
+
+Lemma rank_next_phase ni k : 1 <= ni -> 1 <= k -> rank (next_phase ni k) k <= k.
+Proof.
+  intros H1 H2. unfold next_phase. destruct (ni <? k) eqn:E; simpl; [lia|].
+  destruct (k =? 1) eqn:E2; simpl; lia.
+Qed.
+
+Definition sender_label (l : label) : bool :=
+  match l with LTrySend _ | LSelectSend _ _ | LSelectRemove _ => true | _ => false end.
+
+Lemma sent_measure st ss s i ni direct st' :
+  inv1 st -> lock st = HSend ss -> s_phase ss <> PMerge ->
+  case_at (sendCases st) (s_k ss) i = Some (Sub s) -> 1 <= i -> 1 <= ni ->
+  sent st ss s i ni direct = Some st' ->
+  exists ss', lock st' = HSend ss' /\ send_measure st' ss' < send_measure st ss.
+Proof.
+  intros I L P C Hi Hni H. apply case_at_spec in C. destruct C as [Hik Hnth].
+  destruct (i_send _ I _ L) as [_ [Hk _]]. specialize (Hk P).
+  unfold sent in H. destruct (deliver (chans st s) (s_seq ss) direct) as [c'|]; [|discriminate].
+  destruct (deact_some (sendCases st) (s_k ss) i) as [[sc' k'] Ed]; [lia|lia|].
+  rewrite Ed in H. inversion H; subst st'; clear H.
+  pose proof (Permutation_length (deact_perm _ _ _ _ _ Ed (proj2 Hk))) as HL.
+  destruct (deact_spec _ _ _ _ _ Ed (proj2 Hk)) as [x [pre [_ [_ [Hk' _]]]]].
+  eexists. split; [reflexivity|]. unfold send_measure. simpl. rewrite HL.
+  pose proof (rank_next_phase ni k' Hni). nia.
+Qed.
+
+(* every step of the sending thread between merge and release strictly decreases
+   [send_measure]; so a Send performs at most [send_measure] such steps *)
+Lemma send_measure_decreases st ss e st' :
+  inv st -> lock st = HSend ss -> s_phase ss <> PMerge -> sender_label (snd e) = true ->
+  step st e = Some st' ->
+  exists ss', lock st' = HSend ss' /\ send_measure st' ss' < send_measure st ss.
+Proof.
+  intros [I D] L P SL H. unfold step in H. cbv zeta in H. destruct (panicked st); [discriminate|].
+  destruct (i_send _ I _ L) as [_ [Hk Hp]]. specialize (Hk P).
+  destruct (snd e) as [s0 cap| | |r|chosen d|s0| |s0|s0|s0|s0]; simpl in SL; try discriminate.
+  - unfold do_try in H. rewrite L in H.
+    destruct (s_phase ss) as [|i| |] eqn:Ph; try discriminate.
+    destruct (Nat.eqb (s_tid ss) (fst e)); [|discriminate]. simpl in Hp.
+    destruct (case_at_sub st ss i I L) as [s C]; [congruence|lia|].
+    rewrite C in H. destruct r as [direct|].
+    + apply (sent_measure st ss s i i direct st' I L); auto; try congruence; lia.
+    + destruct (c_cap (chans st s) <=? length (c_queue (chans st s))); [|discriminate].
+      inversion H; subst st'; clear H. eexists. split; [reflexivity|].
+      unfold send_measure. simpl. rewrite Ph. simpl.
+      unfold next_phase. destruct (S i <? s_k ss) eqn:E1; simpl; [lia|].
+      destruct (s_k ss =? 1) eqn:E2; simpl; lia.
+  - unfold do_select_send in H. rewrite L in H.
+    destruct (s_phase ss) eqn:Ph; try discriminate.
+    destruct (Nat.eqb (s_tid ss) (fst e) && negb (Nat.eqb chosen 0)) eqn:T; [|discriminate].
+    apply andb_true_iff in T. destruct T as [_ T]. apply negb_true_iff, Nat.eqb_neq in T.
+    destruct (case_at (sendCases st) (s_k ss) chosen) as [[|s]|] eqn:C; try discriminate.
+    + exfalso. apply case_at_spec in C. destruct C as [_ C].
+      apply nodup_hd_unique in C; [lia | apply inv1_nodup_sc; auto | apply I].
+    + apply (sent_measure st ss s chosen 1 d st' I L); auto; try congruence; lia.
+  - unfold do_select_remove in H. rewrite L in H.
+    destruct (s_phase ss) eqn:Ph; try discriminate.
+    destruct (ustate st s0) eqn:U; try discriminate.
+    destruct (Nat.eqb (s_tid ss) (fst e)); [|discriminate].
+    pose proof (i_missed _ I s0 U) as Hin.
+    destruct (cl_find_in ch_eqb ch_eqb_eq _ _ Hin) as [j F]. rewrite F in H.
+    destruct (cl_delete_find ch_eqb ch_eqb_eq _ _ _ F) as [a [b [Esc [Hj [_ Ed]]]]].
+    rewrite Ed in H. inversion H; subst st'; clear H.
+    eexists. split; [reflexivity|]. unfold send_measure. simpl. rewrite Ph. simpl in *.
+    assert (HL : length (sendCases st) = S (length (a ++ b))).
+    { rewrite Esc, !app_length. simpl. lia. }
+    rewrite HL. set (k' := if j <? s_k ss then s_k ss - 1 else s_k ss).
+    assert (Hk' : 1 <= k' <= s_k ss) by (unfold k'; destruct (j <? s_k ss); lia).
+    pose proof (rank_next_phase 1 k' (le_n 1) (proj1 Hk')). nia.
+Qed.
+
+(* the sending thread is never blocked outside reflect.Select ... *)
+Lemma send_nonblocking st ss :
+  inv st -> lock st = HSend ss -> s_phase ss <> PSelect ->
+  exists l st', step st (s_tid ss, l) = Some st'.
+Proof.
+  intros [I D] L P. pose proof (i_np _ I) as Np. destruct (i_send _ I _ L) as [_ [Hk Hp]].
+  destruct (s_phase ss) as [|i| |] eqn:Ph; try congruence.
+  - exists LSendMerge. unfold step. rewrite Np. simpl. unfold do_merge. rewrite L, Ph, Nat.eqb_refl. eauto.
+  - simpl in Hp. assert (Pm : PTry i <> PMerge) by discriminate. specialize (Hk Pm).
+    destruct (case_at_sub st ss i I L) as [s C]; [congruence|lia|].
+    destruct (c_cap (chans st s) <=? length (c_queue (chans st s))) eqn:Full.
+    + exists (LTrySend None). unfold step. rewrite Np. simpl. unfold do_try.
+      rewrite L, Ph, Nat.eqb_refl, C, Full. eauto.
+    + exists (LTrySend (Some false)). unfold step. rewrite Np. simpl. unfold do_try.
+      rewrite L, Ph, Nat.eqb_refl, C. unfold sent, deliver.
+      destruct (length (c_queue (chans st s)) <? c_cap (chans st s)) eqn:E; [|lia].
+      destruct (deact_some (sendCases st) (s_k ss) i) as [[sc' k'] Ed]; [lia|lia|].
+      rewrite Ed. eauto.
+  - exists LSendRelease. unfold step. rewrite Np. simpl. unfold do_release. rewrite L, Ph, Nat.eqb_refl. eauto.
+Qed.
+
+(* ... and in Select it can proceed as soon as one pending subscriber's channel has room
+   or an empty buffer with a blocked receiver, or an Unsubscribe is waiting on removeSub *)
+Lemma send_select_enabled st ss :
+  inv st -> lock st = HSend ss -> s_phase ss = PSelect ->
+  ((exists i s, 1 <= i /\ case_at (sendCases st) (s_k ss) i = Some (Sub s) /\
+      (length (c_queue (chans st s)) < c_cap (chans st s) \/ c_queue (chans st s) = [])) \/
+   (exists s, ustate st s = UMissed)) ->
+  exists l st', step st (s_tid ss, l) = Some st'.
+Proof.
+  intros [I D] L Ph En. pose proof (i_np _ I) as Np. destruct (i_send _ I _ L) as [_ [Hk Hp]].
+  assert (Pm : s_phase ss <> PMerge) by congruence. specialize (Hk Pm).
+  destruct En as [[i [s [Hi [C Hroom]]]]|[s U]].
+  - pose proof (case_at_spec _ _ _ _ C) as [Hik _].
+    destruct (deact_some (sendCases st) (s_k ss) i) as [[sc' k'] Ed]; [lia|lia|].
+    assert (Hne : (i =? 0) = false) by (apply Nat.eqb_neq; lia).
+    destruct Hroom as [Hroom|Hroom].
+    + exists (LSelectSend i false). unfold step. rewrite Np. simpl. unfold do_select_send.
+      rewrite L, Ph, Nat.eqb_refl, Hne, C. simpl. unfold sent, deliver.
+      destruct (length (c_queue (chans st s)) <? c_cap (chans st s)) eqn:E; [|lia].
+      rewrite Ed. eauto.
+    + exists (LSelectSend i true). unfold step. rewrite Np. simpl. unfold do_select_send.
+      rewrite L, Ph, Nat.eqb_refl, Hne, C. simpl. unfold sent, deliver. rewrite Hroom, Ed. eauto.
+  - exists (LSelectRemove s). unfold step. rewrite Np. simpl. unfold do_select_remove.
+    rewrite L, Ph, U, Nat.eqb_refl.
+    destruct (cl_find_in ch_eqb ch_eqb_eq _ _ (i_missed _ I s U)) as [j F]. rewrite F.
+    destruct (cl_delete_find ch_eqb ch_eqb_eq _ _ _ F) as [a [b [_ [_ [_ Ed]]]]]. rewrite Ed. eauto.
+Qed.
